@@ -10,6 +10,14 @@ TOOLS = os.path.join(core.VERIF, "tools")
 SYSINJ = os.path.join(TOOLS, "bin", "sysinj")
 
 
+def load_factor():
+    """>= 1: by how much wall-clock limits are stretched when the machine is oversubscribed"""
+    try:
+        return max(1.0, os.getloadavg()[0] / (os.cpu_count() or 1))
+    except OSError:
+        return 1.0
+
+
 def build_tracer():
     """Compile tools/sysinj.c into work/tools/sysinj-<hash of the source> (never a stale binary:
     the name is derived from the source text; tools/Makefile builds the same thing for bin/setup)."""
